@@ -20,7 +20,7 @@ fn main() {
     jjv::run("C39", "C39", |ctx| {
         dagrepo::use_scratch(&ctx.scratch);
         let settings = dagrepo::settings();
-        for i in ctx.indices() {
+        let results = dagrepo::par_cases(&*ctx, |ctx, i| -> dagrepo::CaseOut {
             let mut rng = ctx.rng(i);
             let thorough = ctx.tier == "thorough";
             let n = if rng.chance(1, 12) {
@@ -155,13 +155,26 @@ fn main() {
                         if stats.1 > 0 { "indirect " } else { "" },
                         if stats.2 > 1 { "missing" } else { "" }
                     );
-                    ctx.emit(i, term, stats.3 >= 6 && stats.1 >= 1, shape_s.trim());
+                    dagrepo::CaseOut {
+                        term,
+                        nontrivial: stats.3 >= 6 && stats.1 >= 1,
+                        shape: shape_s.trim().to_string(),
+                        panicked: false,
+                    }
                 }
-                None => {
-                    ctx.panicked();
-                    ctx.emit(i, "(mk_case [] [] true)".to_string(), false, "panic");
-                }
+                None => dagrepo::CaseOut {
+                    term: "(mk_case [] [] true)".to_string(),
+                    nontrivial: false,
+                    shape: "panic".to_string(),
+                    panicked: true,
+                },
             }
+        });
+        for (i, r) in results {
+            if r.panicked {
+                ctx.panicked();
+            }
+            ctx.emit(i, r.term, r.nontrivial, &r.shape);
         }
     });
 }
